@@ -158,8 +158,17 @@ func (fc *FnCtx) checkExit(r retInfo, entryEnv *specEnv) {
 
 // checkFrame: everything allocated at entry and not named by the assigns clause is unchanged.
 func (fc *FnCtx) checkFrame(st *State) {
+	for _, g := range fc.frameGoals(st) {
+		fc.oblige(st, "frame", g.goal, fc.fn.Pos(), g.text)
+	}
+}
+
+type frameGoal struct{ key, goal, text string }
+
+// frameGoals: one formula per heap variable whose current value differs from the entry value.
+func (fc *FnCtx) frameGoals(st *State) (goals []frameGoal) {
 	con := fc.con
-	if con == nil {
+	if con == nil || fc.entry == nil {
 		return // safety sweep: no frame claimed
 	}
 	if con.Thread {
@@ -239,16 +248,17 @@ func (fc *FnCtx) checkFrame(st *State) {
 		case "iter":
 			continue
 		case "global", "ghost":
-			fc.oblige(st, "frame", eq(cur, was), fc.fn.Pos(), "assigns: "+k+" unchanged")
+			goals = append(goals, frameGoal{k, eq(cur, was), "assigns: " + k + " unchanged"})
 		default:
 			conds := []string{app("<=", "0", "r!f"), app("<", "r!f", alloc0)}
 			for _, r := range allowedRefs[k] {
 				conds = append(conds, not(eq("r!f", r)))
 			}
-			g := fmt.Sprintf("(forall ((r!f Int)) (! (=> %s (= (select %s r!f) (select %s r!f))) :pattern ((select %s r!f))))", and(conds...), cur, was, cur)
-			fc.oblige(st, "frame", g, fc.fn.Pos(), "assigns: "+k+" unchanged except "+strings.Join(allowedRefs[k], ","))
+			g := fmt.Sprintf("(forall ((r!f Int)) (=> %s (= (select %s r!f) (select %s r!f))))", and(conds...), cur, was)
+			goals = append(goals, frameGoal{k, g, "assigns: " + k + " unchanged except " + strings.Join(allowedRefs[k], ",")})
 		}
 	}
+	return
 }
 
 // ---- lemmas ----
